@@ -52,7 +52,7 @@ def run_known_cases(chk, props=None):
         res = results.get(c["id"])
         chk.evaluated()
         if res is None or "steps" not in res:
-            if res is not None and "died" in res and c["observed"].get("outcome") == "died":
+            if res is not None and "died" in res and any(o.get("outcome") == "died" for o in (c["observed"] if isinstance(c["observed"], list) else [c["observed"]])):
                 chk.violation({"kind": "fixed-case", "case": c["id"]}, f"known case {c['id']} reproduces (process death)", {"cases": [case]})
                 continue
             chk.inconc("known case could not be run")
@@ -64,7 +64,8 @@ def run_known_cases(chk, props=None):
         if _same(st, c["expected"]):
             chk.count("known_case_no_longer_reproduces")
             continue
-        if _same(st, c["observed"]):
+        observed = c["observed"] if isinstance(c["observed"], list) else [c["observed"]]    # a defect may show in more than one recorded way
+        if any(_same(st, o) for o in observed):
             chk.violation({"kind": "fixed-case", "case": c["id"]}, f"known case {c['id']} reproduces: {c['sql']}", {"cases": [case]})
             chk.nontrivial(("known-case", c["id"]))
             continue
